@@ -3,7 +3,9 @@ import DG.Graph
 # `ModuleGraph::resolve` and the lookups built on it (src/graph.rs 2668-2928)
 
 The model follows the code as written, including the `MAX_REDIRECTS` cap that
-counts *specifiers seen* (a `HashSet`, modelled as a duplicate-free list).
+counts *specifiers seen* (a `HashSet`, modelled as a duplicate-free list), and — since the repair
+of findings F12/F35 — the guard `!self.module_slots.contains_key(..)` on every redirect lookup:
+a specifier that has an entry of its own is where `resolve` stops, as the walk does.
 -/
 namespace DG
 open Tables
@@ -36,6 +38,12 @@ def resolveWith (redir : Spec → Option Spec) (cap : Option Nat) (fuel : Nat) (
   | none => s
   | some s1 => resolveLoop redir cap fuel (setInsert [s] s1) s1
 
+/-- the redirect entry `resolve` consults for `s`: none when `s` has an entry of its own (every
+`self.redirects.get(s)` in the source is guarded by `!self.module_slots.contains_key(s)`;
+regenerated table `resolveStopsAtEntry`) -/
+def effRedirect (hasEntry : Spec → Bool) (redir : Spec → Option Spec) (s : Spec) : Option Spec :=
+  if resolveStopsAtEntry && hasEntry s then none else redir s
+
 /-- the cap as found in the source (regenerated table) -/
 def resolveCap : Option Nat := if resolveHasCap then some resolveMaxRedirects else none
 
@@ -45,8 +53,11 @@ def Graph.resolveFuel (g : Graph) : Nat :=
   | some max => max
   | none => g.redirects.length + 1
 
+def Graph.redirectEff (g : Graph) (s : Spec) : Option Spec :=
+  effRedirect (fun x => (g.slot x).isSome) g.redirect s
+
 def Graph.resolve (g : Graph) (s : Spec) : Spec :=
-  resolveWith g.redirect resolveCap g.resolveFuel s
+  resolveWith g.redirectEff resolveCap g.resolveFuel s
 
 /-- `ModuleGraph::get` (as "is there a module, and under which key") -/
 def Graph.get (g : Graph) (s : Spec) : Option Spec :=
